@@ -301,7 +301,17 @@ def r08_5(ctx, prog, crate, rec):
     ctx.anchor("R08.5", "user-closure calls with a barrier wait still due", n, 9)
 
 
+def r08_6(ctx, prog, crate):
+    """Each thread's sample reports that thread's own allocations: the snapshot a thread took (R08.3) travels with its raw
+    sample, is stored under the index of the time sample pushed in the same iteration, and is looked up by the index of
+    that very sample - writer/reader agreement shared with C05 (R05.2)."""
+    from .C05 import r05_2
+    from .common import Renamed
+    r05_2(Renamed(ctx, "R08.6"), prog, crate)
+
+
 def run(ctx, prog, crate):
+    r08_6(ctx, prog, crate)
     rec = Recorder(prog, crate)
     if not ctx.anchor("R08.1", "sample recorder body", 1 if rec.body is not None else 0, 1):
         return
